@@ -6,6 +6,10 @@ ids = [json.loads(l)["id"] for l in open(os.path.join(V, "properties.jsonl"))]
 
 T = "Coq 8.16 theorems over the hand-written Gallina model, closed by the kernel (no axioms); model tied to /repo on every run by regenerated constants and by differential execution of the extracted model against libsrtp (ASan/UBSan) on generated scripts; independent monitors on the implementation's transcript give the replay. "
 CLAIMED = {
+ "C04": (T + "Theorems: accepted by srtp_unprotect => tag octets = HMAC(k_a, all octets before the MKI || ROC); SRTCP: E bit / index from the trailer, tag over packet || trailer; the key used is the one the MKI names; tag comparison (model and both C chunk schedules) is equality; under an explicit collision-freeness premise accepted => authenticated portion is the sender's. Every single-bit flip / truncation / extension / splice of genuine packets compared with the model (which computes the real HMAC). PARTIAL: unforgeability of HMAC-SHA1 is a cryptographic assumption, replaced by an explicit idealisation premise.",
+         "6.C04", "Coq proof (tag-acceptance characterisation + idealised-MAC corollary) + mutation runs"),
+ "C20": (T + "Theorems: in the wipe/free event trace of srtp_stream_dealloc / srtp_dealloc (a function of the session structure, sizes regenerated from the headers) every AES-ICM context, HMAC block and MKI copy is wiped in full immediately before it is freed, and every salt is wiped before the session-keys array is freed. The implementation's own events are compared event by event; every freed block is scanned for the secrets the model's KDF computes. PARTIAL: dead-store elimination / stack residue outside the model.",
+         "6.C20", "Coq proof over the dealloc event trace + event-level correspondence + scan of freed blocks"),
  "C05": (T + "Theorems: for every window size and every delivery list no index is accepted twice; bitmap <-> accepted-set invariant; verdict on the next packet (copy / beyond effective window / fresh inside window).",
          "6.C05", "Coq proof by invariant over delivery lists + differential correspondence"),
  "C06": (T + "Theorems: estimate = true index for all 48-bit index pairs closer than 2^15 at every ROC; closest of ROC-1/ROC/ROC+1; no ROC-1 at stream start; receiver follows sender.",
